@@ -1,11 +1,13 @@
 #!/bin/bash
-# usage: try_patch.sh <patch.diff> <prop> [tier]   -- applies patch to /repo, runs the check, always reverts.
-patch=$1; prop=$2; tier=${3:-quick}
-cd /repo || exit 2
-if [ -n "$(git status --porcelain)" ]; then echo "try_patch: /repo not clean"; exit 2; fi
-git apply "$patch" || { echo "try_patch: patch does not apply"; exit 3; }
-trap 'git -C /repo checkout -- . ; git -C /repo clean -fdq' EXIT
-cd /verif && ./check "$prop" "$tier"
+# usage: try_patch.sh <patch.diff> <prop> [tier]
+# Applies the patch to a scratch worktree of /repo's HEAD (never to /repo itself, so that background
+# runs are not disturbed), runs the check against it with VERIF_REPO, removes the worktree.
+patch=$(readlink -f "$1"); prop=$2; tier=${3:-quick}
+wt=/var/tmp/trypatch.$$
+git -C /repo worktree add -q --detach "$wt" HEAD || exit 2
+trap 'git -C /repo worktree remove --force "$wt" 2>/dev/null' EXIT
+git -C "$wt" apply "$patch" || { echo "try_patch: patch does not apply"; exit 3; }
+cd /verif && VERIF_REPO="$wt" ./check "$prop" "$tier"
 rc=$?
 echo "try_patch: exit=$rc"
 exit $rc
